@@ -26,8 +26,8 @@ static CaseResult wrap_case(Tape &t)
 		if (!found) for (auto &pp : R.peers) for (auto &pkt : pp->up_abandoned) if (pkt.size() == w.data.size() && pkt.size() > 32 && !memcmp(pkt.data(), w.data.data(), 30)) merged = true;
 		if (!found) { r.fail(merged ? "C01:merged-after-wrap" : "C01:fabricated-after-wrap", scn::fmt("the server wrote a %zu-byte packet to its tun device that the scripted sender never sent: %s", w.data.size(), hexs(w.data, 48).c_str()) + "\n" + r.render); break; }
 	}
-	r.nontrivial = R.n_wrap + R.n_merge >= 1;
-	r.cls("scripted-sender"); if (R.n_wrap) r.cls("sequence-number-wrap-with-crafted-packet"); if (R.n_merge) r.cls("sequence-number-wrap-after-abandoned-first-fragment");
+	r.nontrivial = R.n_wrap + R.n_merge + R.n_glue >= 1;
+	r.cls("scripted-sender"); if (R.n_wrap) r.cls("sequence-number-wrap-with-crafted-packet"); if (R.n_merge) r.cls("sequence-number-wrap-after-abandoned-first-fragment"); if (R.n_glue) r.cls("packet-crafted-against-stale-buffer-contents");
 	return r;
 }
 
